@@ -88,7 +88,13 @@ def compare_native(prog, sc, dumps, rets, expected, dbA, dbB, kind_hint):
                 problems.append(("mismatch", "%s: relation %s holds underivable rows %s after an interrupted run" % (label, rn, extra[:6])))
 
     k = sc.kind
-    if k in ("run", "push"):
+    if k == "idem":
+        g1, g2 = native_rows(dumps[0], prog), native_rows(dumps[1], prog)
+        for rn in g1:
+            a1, a2 = sorted(set(g1[rn])), sorted(set(g2[rn]))
+            if a1 != a2:
+                problems.append(("mismatch", "second run() changed relation %s: added %s, removed %s" % (rn, [x for x in a2 if x not in a1][:6], [x for x in a1 if x not in a2][:6])))
+    elif k in ("run", "push"):
         full_check(0, "after run")
     elif k == "rerun":
         full_check(0, "after first run")
@@ -178,6 +184,8 @@ def check_program(corpus, mod_ast, prog, sc, rng, V=3, features=None):
         rec["query"] = q.name
         cex = {"query": q.name, "kind": q.kind, "inputs": {k: [rust_repr(t) for t in v] for k, v in dbA.items()},
                "pushed": ({k: [rust_repr(t) for t in v] for k, v in dbB.items()} if dbB else None), "deadline_checks": ks}
+        if sc.kind == "timeout":
+            cex["interrupted_in_scc"] = sc.interrupted_sccs(model)
         if rec["problems"]:
             out.cexes.append((cex, rec))
             if out.cex is None:
@@ -212,6 +220,10 @@ def check_program(corpus, mod_ast, prog, sc, rng, V=3, features=None):
             rec["query"] = "translator-validation database (encoding assumes the index contract; the real code broke it)"
             out.cex = {"query": rec["query"], "kind": rec["problems"][0][0], "inputs": {k: [rust_repr(t) for t in v] for k, v in dbA.items()},
                        "pushed": ({k: [rust_repr(t) for t in v] for k, v in dbB.items()} if dbB else None), "deadline_checks": ks}
+            if sc.kind == "timeout":
+                asg = sc.A.pin(dbA)
+                sc.pin_deadlines(asg, ks)
+                out.cex["interrupted_in_scc"] = sc.interrupted_sccs(asg)
             out.replay = rec
             out.status = "violation"
             out.detail = "found while validating the encoding: " + "; ".join(t for _, t in rec["problems"][:3])
